@@ -3,7 +3,7 @@ correspondence generators and runners.  The real cpl.evolve2d is run with a logg
 array and the complete (n, (row, col), t) log are compared in Coq with the proved model."""
 import numpy as np
 from harness.driver import call_impl, cz, cnat, cbool, czlist, cgrid, chist, clist, cres
-from harness.twins import Logged2, PredLt, make_rule, coq_rule_spec
+from harness.twins import Logged2, PredLt, make_rule, coq_rule_spec, exact_int
 
 ID = 'C02'
 COQ_IMPORTS = ('From CPL Require Import Model.Base Model.Rules Model.Engine Model.Evolve2D Model.Evolve2DChecked '
@@ -13,14 +13,47 @@ NONTRIVIAL_RULE = ('non-trivial = the call returned an array and the rule was ca
 EXHAUSTIVE = {'quick': False, 'thorough': False}
 NOTES = ['every shape R x C <= 5x5 (quick) / 7x7 (thorough), every radius 0..min(R,C) and both neighbourhood types are '
          'swept; grids, histories and rules are sampled',
-         'compared in Coq: the returned array (values and shape) and the whole call log '
-         '(block values, np.ma.getmaskarray pattern, (row, col), t)']
-ASSUMPTIONS = ['rule results and initial states are representable in the dtype of the automaton (store = identity)',
+         'compared in Coq: the returned array (values, shape, dtype name) and the whole call log '
+         '(block values, np.ma.getmaskarray pattern, (row, col), t)',
+         'float stream: the rule returns value/4.0 into integer automata (scalar assignment truncates towards zero), '
+         'T >= 3 so that the next step reads the stored grid',
+         'bigint stream: int64 / uint64 states and results above 2**53, one generation mixing Python floats / NumPy '
+         'scalars of other kinds with big ints']
+ASSUMPTIONS = ['rule results (after truncation of value/scale towards zero for float results into integer automata) and '
+               'initial states are representable in the dtype of the automaton',
                'radii outside 0..min(R,C) are outside the property: only T = 1 (no step made) is run there',
                'memoize=False only (memoize=True / "recursive" are C04)']
 TRUSTED = ['Python twins Lin2 / LinCT2 / Script / Logged2 / PredLt in harness/twins.py']
 
 DTYPES = ['int64', 'int32', 'uint8', 'float64']
+_CDTYPE = {'bool': 'DBool', 'int32': 'DInt32', 'int64': 'DInt64', 'uint8': 'DUInt8', 'uint64': 'DUInt64',
+           'float64': 'DFloat64'}
+
+
+class Scaled:
+    """returns f(n, c, t) / scale as a Python float (scale is a power of two: exact)"""
+    def __init__(self, f, scale):
+        self.f, self.scale = f, scale
+
+    def __call__(self, n, c, t):
+        return self.f(n, c, t) / float(self.scale)
+
+
+_KINDS = {'float': float, 'np.float64': np.float64, 'np.int64': np.int64, 'np.uint64': np.uint64, 'np.int32': np.int32,
+          'np.uint8': np.uint8}
+
+
+class KindAt:
+    """the same VALUES as f, but the result of call number i is wrapped as kinds[i] (a Python float or a NumPy scalar
+    type that represents the value exactly); the model is unchanged"""
+    def __init__(self, f, kinds):
+        self.f, self.kinds, self.i = f, dict((int(k), v) for k, v in kinds), 0
+
+    def __call__(self, n, c, t):
+        v = self.f(n, c, t)
+        k = self.kinds.get(self.i)
+        self.i += 1
+        return _KINDS[k](v) if k else v
 
 # Defect found with this bucket and FIXED in /repo (commit 30203e6): _get_neighbourhood built
 # np.ma.masked_array(n, von_neumann_mask) around the ONE shared mask array, so a rule that assigns into its masked
@@ -130,6 +163,12 @@ def generate(rng, tier):
     # -- rules that write to their argument in place (kept last: the cases above do not depend on it)
     for c in _scribble_cases(rng, tier, _assign_vn()):
         yield c
+    for c in _float_cases(rng, tier):
+        yield c
+    for c in _bigint_cases(rng, tier):
+        yield c
+    for c in _bool_cases(rng, tier):
+        yield c
 
 
 def _scribble_cases(rng, tier, assign_vn):
@@ -155,6 +194,99 @@ def _scribble_cases(rng, tier, assign_vn):
                         yield c
 
 
+def _float_cases(rng, tier):
+    """float results value/4.0 into integer automata: array[t][row][col] = v truncates towards zero; T >= 3 so that
+    the following step reads the STORED grid (not the raw results)"""
+    n = 90 if tier == 'quick' else 900
+    for k in range(n):
+        fam = ('script', 'linct', 'lin')[k % 3]
+        dyn = k % 5 == 4
+        dtype = ('int64', 'int32', 'uint8')[(k // 3) % 3]
+        R, C = rng.randint(1, 5), rng.randint(1, 5)
+        r = rng.randint(0, min(R, C, 2))
+        T = rng.randint(3, 4)
+        ty = rng.choice(['moore', 'vn'])
+        c = _case(rng, 'float/%s/%s%s' % (dtype, fam, '/dynamic' if dyn else ''), R, C, r, ty, T, rng.randint(1, 2), fam,
+                  dtype=dtype, mode='dyn' if dyn else 'fixed')
+        calls = R * C * (T - 1)
+        if fam == 'script':
+            lo, hi = (0, 800) if dtype == 'uint8' else (-400, 800)
+            c['rule'] = {'fam': 'script', 'vs': [rng.randint(lo, hi) for _ in range(calls)]}
+        else:
+            c['rule']['m'] = rng.choice([7, 11, 13, 29, 4 * 7, 4 * 11])
+        c['scale'] = 4
+        yield c
+
+
+def _bigcell(rng, dtype):
+    if dtype == 'uint64':
+        return rng.choice([2 ** 53 + 1, 2 ** 63 + 5, 2 ** 64 - 1, 2 ** 62 + 3, rng.randrange(2 ** 53, 2 ** 64), rng.randint(0, 9)])
+    return rng.choice([2 ** 53 + 1, -(2 ** 53) - 1, 2 ** 62 + 3, 2 ** 63 - 1, -(2 ** 63), rng.randrange(-2 ** 63, 2 ** 63),
+                       rng.randint(-9, 9)])
+
+
+def _bigint_cases(rng, tier):
+    """int64 / uint64 automata whose states and rule results exceed 2**53: what is stored is exact (no detour through
+    float64 between the rule's return value and the array), also when other cells of the same generation return a
+    Python float or a NumPy scalar of another kind (legal: the value is representable in the automaton's dtype)"""
+    n = 80 if tier == 'quick' else 800
+    for k in range(n):
+        fam = ('script', 'linct')[k % 2]
+        dtype = ('int64', 'uint64')[(k // 2) % 2]
+        dyn = k % 7 == 6
+        mix = ('none', 'float', 'np')[(k // 4) % 3]
+        R, C = rng.randint(1, 4), rng.randint(1, 4)
+        if mix != 'none' and R * C == 1:
+            C = 2
+        r = rng.randint(0, min(R, C, 1))
+        T = rng.randint(2, 3)
+        ty = rng.choice(['moore', 'vn'])
+        hist = [[[_bigcell(rng, dtype) for _ in range(C)] for _ in range(R)] for _ in range(rng.randint(1, 2))]
+        calls = R * C * (T - 1)
+        c = {'kind': 'bigint/%s/%s/mix=%s%s' % (dtype, fam, mix, '/dynamic' if dyn else ''),
+             'mode': 'dyn' if dyn else 'fixed', 'R': R, 'C': C, 'r': r, 'ty': ty, 'T': T, 'hist': hist, 'dtype': dtype}
+        small_at = set()
+        if mix != 'none':      # in every generation at least one small value (wrapped) next to big ones
+            for g in range(T - 1):
+                small_at.add(g * R * C + rng.randrange(R * C))
+        if fam == 'script':
+            vs = [_bigcell(rng, dtype) for _ in range(calls)]
+            for i in small_at:
+                vs[i] = rng.randint(0, 9)
+            for g in range(T - 1):          # ... and at least one odd value above 2**53 in every generation
+                others = [i for i in range(g * R * C, (g + 1) * R * C) if i not in small_at]
+                if others:
+                    vs[rng.choice(others)] = rng.choice([2 ** 53 + 1, 2 ** 62 + 3, 2 ** 63 - 1])
+            c['rule'] = {'fam': 'script', 'vs': vs}
+            kinds = [[i, 'float' if mix == 'float' else ('np.uint64' if dtype == 'int64' else 'np.int64')] for i in sorted(small_at)]
+        else:
+            w = (2 * r + 1) ** 2
+            m = rng.choice([2 ** 61 - 1, 2 ** 62 + 1, 2 ** 63 - 25]) if dtype == 'int64' else rng.choice([2 ** 63 + 3, 2 ** 64 - 59])
+            c['rule'] = {'fam': 'linct', 'ws': [rng.randint(1, 3) for _ in range(w)], 'm': m}
+            kinds = []          # values are not known in advance: leave them Python ints
+            c['kind'] = 'bigint/%s/%s/mix=none%s' % (dtype, fam, '/dynamic' if dyn else '')
+        if kinds:
+            c['kinds'] = kinds
+        yield c
+
+
+def _bool_cases(rng, tier):
+    n = 24 if tier == 'quick' else 240
+    for k in range(n):
+        fam = ('script', 'lin')[k % 2]
+        R, C = rng.randint(1, 5), rng.randint(1, 5)
+        r = rng.randint(0, min(R, C, 2))
+        T = rng.randint(2, 3)
+        c = _case(rng, 'dtype/bool/%s' % fam, R, C, r, rng.choice(['moore', 'vn']), T, rng.randint(1, 2), fam,
+                  dtype='bool', style='binary')
+        c['hist'] = [[[rng.randint(0, 1) for _ in range(C)] for _ in range(R)] for _ in c['hist']]
+        if fam == 'script':
+            c['rule'] = {'fam': 'script', 'vs': [rng.randint(0, 1) for _ in range(R * C * (T - 1))]}
+        else:
+            c['rule']['m'] = 2
+        yield c
+
+
 def _assign_vn():
     import os
     return ASSIGN_VN_DEFAULT and os.environ.get('C02_SCRIBBLE_ASSIGN_VN') != '0'
@@ -166,6 +298,10 @@ def run_impl(c):
     inner = make_rule(c['rule'], dim=2)
     if c.get('scribble'):
         inner = Scribble(inner, c.get('scribble_mode', 'data'))
+    if c.get('scale', 1) != 1:
+        inner = Scaled(inner, c['scale'])
+    if c.get('kinds'):
+        inner = KindAt(inner, c['kinds'])
     rule = Logged2(inner)           # the log is taken (as copies) before the inner rule runs
     nb = 'Moore' if c['ty'] == 'moore' else 'von Neumann'
     ts = c['T'] if c['mode'] == 'fixed' else PredLt(c['T'])
@@ -173,10 +309,11 @@ def run_impl(c):
     if res[0] != 'ok':
         return list(res)
     out = np.asarray(res[1])
-    grids = [[[int(x) for x in row] for row in g] for g in out.tolist()] if out.ndim == 3 else []
+    grids = [[[exact_int(x) for x in row] for row in g] for g in out.tolist()] if out.ndim == 3 else []
     log = [[vals, mask, [rc[0], rc[1]], t] for ((vals, mask), rc, t) in rule.log]
-    ca_after = [[[int(x) for x in row] for row in g] for g in ca.tolist()]      # the caller's array after the call
-    return ['ok', {'shape': [int(x) for x in out.shape], 'grids': grids, 'log': log, 'ca_after': ca_after}]
+    ca_after = [[[exact_int(x) for x in row] for row in g] for g in ca.tolist()]      # the caller's array after the call
+    return ['ok', {'shape': [int(x) for x in out.shape], 'grids': grids, 'log': log, 'ca_after': ca_after,
+                   'dtype': str(out.dtype)}]
 
 
 def _cblist(xs):
@@ -189,13 +326,14 @@ def _ccall(e):
 
 
 def _cout(v):
-    return '(%s, %s)' % (chist(v['grids']), clist(v['log'], _ccall))
+    return '(%s, %s, %s)' % (chist(v['grids']), clist(v['log'], _ccall), _CDTYPE.get(v.get('dtype'), 'DOther'))
 
 
 def to_coq(c, obs):
-    return '(%s %s %s %s %s %s %s)' % (
+    return '(%s %s %s %s %s %s %s %s %s)' % (
         'CEvolve2D' if c['mode'] == 'fixed' else 'CEvolve2DDyn',
-        'Moore' if c['ty'] == 'moore' else 'VonNeumann', cnat(c['r']), chist(c['hist']), cnat(c['T']),
+        'Moore' if c['ty'] == 'moore' else 'VonNeumann', cnat(c['r']), cz(c.get('scale', 1)),
+        _CDTYPE.get(c['dtype'], 'DOther'), chist(c['hist']), cnat(c['T']),
         coq_rule_spec(c['rule']), cres(obs, _cout))
 
 
@@ -216,6 +354,9 @@ def oracle(c, obs):
     steps = max(T - 1, 0)
     if v['shape'] != [H + steps, R, C]:
         return 'shape %s, expected %s' % (v['shape'], [H + steps, R, C])
+    if v.get('dtype') != c['dtype']:
+        return 'the result has dtype %s, the automaton passed in has %s' % (v.get('dtype'), c['dtype'])
+    scale = c.get('scale', 1)
     if v['grids'][:H] != c['hist']:
         return 'the given history is not a prefix of the result (compared with the pre-call copy)'
     if v.get('ca_after', c['hist']) != c['hist']:
@@ -242,14 +383,23 @@ def oracle(c, obs):
                 wmask = [[(c['ty'] == 'vn') and (abs(a - r) + abs(b - r) > r) for b in range(w)] for a in range(w)]
                 if mask != wmask:
                     return 'mask of cell %s at t=%d is %s, expected %s' % (rc, t, mask, wmask)
-                n = np.ma.masked_array(np.array(want), np.array(wmask)) if c['ty'] == 'vn' else np.array(want)
-                if nxt[row][col] != fresh(n, (row, col), t):
-                    return 'cell %s at t=%d holds %s, not the value the rule returned' % (rc, t, nxt[row][col])
+                wn = np.array(want, dtype=np.dtype(c['dtype']))     # (without dtype, big uint64 lists become float64)
+                n = np.ma.masked_array(wn, np.array(wmask)) if c['ty'] == 'vn' else wn
+                val = fresh(n, (row, col), t)
+                if scale != 1:      # a float result into an integer automaton: truncated towards zero
+                    val = abs(val) // scale * (1 if val >= 0 else -1)
+                if nxt[row][col] != val:
+                    return 'cell %s at t=%d holds %s, not the value the rule returned (%s)' % (rc, t, nxt[row][col], val)
     return None
 
 
 def shrink(c):
     R, C, r, T = c['R'], c['C'], c['r'], c['T']
+    if c['dtype'] in ('bool', 'uint64') or c['kind'].startswith('bigint'):
+        # values are tied to the dtype: only drop history / steps
+        if len(c['hist']) > 1:
+            yield dict(c, hist=c['hist'][-1:])
+        return
     if len(c['hist']) > 1:
         yield dict(c, hist=c['hist'][-1:])
     if T > 2:
